@@ -109,6 +109,17 @@ static inline std::vector<MsgDef> messageAlphabet()
     // common flags
     for (uint8_t fl : {(uint8_t) 0x01, (uint8_t) 0x02, (uint8_t) 0x10, (uint8_t) 0x20, (uint8_t) 0x80, (uint8_t) 0xB3})
         add(fmt("generic-flags-%02x", fl), 0xFD, patt(3, 20 + fl), fl);
+    // extreme header values (sign bits, all ones, zero)
+    {
+        ref::Msg* m = add("generic-ts-signbit", 0xFC, patt(2, 60));
+        m->h.ts = 0x8000000000000000ull; m->h.idword = 0x80000000u;
+        m = add("generic-ts-allones", 0xFC, patt(2, 61));
+        m->h.ts = ~0ull; m->h.idword = 0xFFFFFFFFu;
+        m = add("generic-ts-zero", 0xFC, patt(2, 62));
+        m->h.ts = 0; m->h.idword = 0x00008000u;
+        m = add("generic-ptype-ff", 0xFF, patt(1, 63));
+        m->h.ts = 0x00000000FFFFFFFFull; m->h.idword = 0x0000FFFFu;
+    }
     // messages that end the expected prefix
     add("payload-type-0", 0x00, patt(4, 30));
     add("error-in-payload", 0xFE, patt(4, 31), 0x40);
